@@ -112,6 +112,25 @@ class W:
                 o = g.Symbol(self.name(nm), uuid=uu, payload=self.payload_py(p))
             self.adopt(n, kind, o)
             return [0]
+        if c == 50:
+            # a parent constructed WITH its children: IR(modules=[..]), Module(sections=.., symbols=.., proxies=..),
+            # Section(byte_intervals=[..]), ByteInterval(blocks=[..])
+            _, n, k, u, kids = it
+            kind = KINDS[k]
+            uu = uuidlib.UUID(int=u)
+            objs = [O[x] for x in kids]
+            if kind == "IR":
+                o = g.IR(uuid=uu, modules=objs)
+            elif kind == "Module":
+                o = g.Module(name="m%d" % n, uuid=uu,
+                             sections=[x for x in objs if isinstance(x, g.Section)], symbols=[x for x in objs if isinstance(x, g.Symbol)],
+                             proxies=[x for x in objs if isinstance(x, g.ProxyBlock)])
+            elif kind == "Section":
+                o = g.Section(name="s%d" % n, uuid=uu, byte_intervals=objs)
+            else:
+                o = g.ByteInterval(size=8, uuid=uu, blocks=objs)
+            self.adopt(n, kind, o)
+            return [0]
         if c == 2:
             _, ch, p = it
             setattr(O[ch], PARENT_ATTR[self.kind[ch]], O[p[0]] if p else None)
@@ -257,6 +276,13 @@ class W:
                 p = None if kind == "IR" else self.parent_of(o, kind)
                 out.append([n, opt(None if p is None else self.num.get(id(p), -7)), self.kids(n)])
             return [0, out]
+        if c == 48:
+            o, kind = O[it[1]], self.kind[it[1]]
+            names = {"Section": ["byte_intervals", "byte_blocks", "code_blocks", "data_blocks"],
+                     "Module": ["byte_intervals", "byte_blocks", "code_blocks", "data_blocks", "cfg_nodes"],
+                     "IR": ["byte_intervals", "byte_blocks", "code_blocks", "data_blocks", "cfg_nodes", "sections", "symbols", "proxy_blocks"]}[kind]
+            got = [self.num.get(id(x), -7) for x in getattr(o, names[it[2]])]
+            return [0, sorted(got)]
         if c == 46:
             return [0, [[k, self.expr_num[id(e)]] for k, e in O[it[1]].symbolic_expressions.items()]]
         if c == 47:
